@@ -20,7 +20,7 @@ EXPLANATION = (
     "gates admission enforces header-then-body, the four body checks and uniqueness over all transactions (C12). "
     "Does NOT decide: the iff against an independent validity oracle; R5 is an inventory, not a proof of trap freedom.")
 RULES = {
-    'R1': 'GATE(ValidationContext::new => push), GATE(validate_block => push); CALLERS(push, insert_block, extend)',
+    'R1': 'GATE(ValidationContext::new => push), GATE(validate_block => push); CALLERS(push, insert_block, extend); AlreadyKnown iff any successor of the parent has the offered hash; get_chain_with_tip atom',
     'R2': 'no state write before the validation success edge; no Err after the first cache write in insert_outpoints',
     'R3': 'reject arms of the response processor: counter + return, NOPATH to loop header / announced headers',
     'R4': 'announced headers: every failure returns before insert; GATE(validate_header => insert_next_block_header)',
